@@ -195,6 +195,15 @@ func (g *srvGen) variant(r2 *rand.Rand) int {
 		g.cfg.lease = []time.Duration{60 * time.Second, 61900 * time.Millisecond, 90500 * time.Millisecond, 36 * time.Hour, 1000 * time.Hour,
 			(1<<31 - 1) * time.Second, (1 << 31) * time.Second, 3000000000 * time.Second, (1<<32 - 1) * time.Second}[r2.Intn(9)]
 	}
+	// long DNS / NTP lists: OFFER and ACK grow beyond the 576 octets a client may name as its maximum message size (option 57 is
+	// among the wishes variant packets carry); every configured value is sent all the same
+	if r2.Intn(5) == 0 {
+		g.cfg.dns, g.cfg.ntp = nil, nil
+		for i := 0; i < 40+r2.Intn(20); i++ {
+			g.cfg.dns = append(g.cfg.dns, ipStr(0x08080000+uint32(i)))
+			g.cfg.ntp = append(g.cfg.ntp, ipStr(0xc0a80a00+uint32(i)))
+		}
+	}
 	g.op1 = r2.Intn(3) == 0
 	// per-client settings for clients without a reserved address (they identify themselves by client identifier or not)
 	for _, c := range g.clients {
@@ -621,6 +630,15 @@ func (g *srvGen) someAddr() uint32 {
 func (g *srvGen) next() ([]byte, []arpResp, *simClient, byte) {
 	r, c := g.r, g.cfg
 	cl := g.clients[r.Intn(len(g.clients))]
+	if g.r2 != nil && !cl.static && g.r2.Intn(12) == 0 {
+		// the same adapter under another identity (another operating system, a boot loader): with a client identifier where it
+		// sent none, or with a different one.  To the server this is another client; it keeps asking for what the first one got
+		if cl.cid == nil || g.r2.Intn(2) == 0 {
+			cl.cid = append([]byte{0xff}, randBytes(g.r2, 6+g.r2.Intn(10))...)
+		} else {
+			cl.cid = nil
+		}
+	}
 	flags := uint16(0)
 	if r.Intn(3) == 0 {
 		flags = 0x8000
